@@ -2,3 +2,6 @@
 import RB.Util.Driver
 import RB.Model.Stats
 import RB.Proofs.C15
+import RB.Model.Termination
+import RB.Model.Sched
+import RB.Util.SchedDriver
